@@ -28,7 +28,7 @@ theorem splitFour_node {l : T α} {a c r t1} (h : splitFour (node l a c r) = .ok
 variable (new : α) (onDup : α → α)
 
 theorem put_inorder (hc : CmpOk cmp) : ∀ (fuel : Nat) (t : T α) (res : T α × Bool),
-    put cmp key new onDup fuel t = .ok res → Ordered cmp key t →
+    put cmp key (key new) (some new) onDup fuel t = .ok res → Ordered cmp key t →
     inorder res.1 = insL cmp key new onDup (inorder t) ∧
     res.2 = !(memL cmp key (key new) (inorder t)) := by
   intro fuel
@@ -124,6 +124,83 @@ theorem insL_sorted (hc : CmpOk cmp) (hdup : ∀ a, key (onDup a) = key a) :
             · exact hl _ (by simp)
             · exact ihl (fun y hy => hl y (by simp [hy])) b hb
       exact this rest hs.1 b hb
+
+/-- a failed insertion (`new_obj` returned NULL, or the value copy for an existing key failed:
+    `onDup = id`) restructures at most: the in-order sequence is unchanged and nothing is added -/
+theorem put_none_inorder (k : K) : ∀ (fuel : Nat) (t : T α) (res : T α × Bool),
+    put cmp key k none id fuel t = .ok res → inorder res.1 = inorder t ∧ res.2 = false := by
+  intro fuel
+  induction fuel with
+  | zero => intro t res h; simp [put] at h
+  | succ fuel ih =>
+    intro t res h
+    cases t with
+    | nil => simp [put] at h; subst h; simp
+    | node l a c r =>
+      simp only [put] at h
+      obtain ⟨t1, h1, h2⟩ := bind_eq_ok h
+      obtain ⟨l1, c1, r1, rfl, il, ir, _, _⟩ := splitFour_node h1
+      simp only at h2
+      cases hcmp : cmp k (key a) with
+      | eq =>
+        rw [hcmp] at h2
+        obtain ⟨t2, h3, h4⟩ := bind_eq_ok h2
+        cases h4
+        simp [(putUp_same h3).1, il, ir]
+      | lt =>
+        rw [hcmp] at h2
+        obtain ⟨p, h3, h4⟩ := bind_eq_ok h2
+        obtain ⟨t2, h5, h6⟩ := bind_eq_ok h4
+        cases h6
+        obtain ⟨i1, i2⟩ := ih l1 p h3
+        simp [(putUp_same h5).1, i1, i2, il, ir]
+      | gt =>
+        rw [hcmp] at h2
+        obtain ⟨p, h3, h4⟩ := bind_eq_ok h2
+        obtain ⟨t2, h5, h6⟩ := bind_eq_ok h4
+        cases h6
+        obtain ⟨i1, i2⟩ := ih r1 p h3
+        simp [(putUp_same h5).1, i1, i2, il, ir]
+
+/-- an update of an existing key only (`mk = none`, arbitrary `onDup`): when the key is
+    absent nothing changes -/
+theorem put_absent_inorder (hc : CmpOk cmp) (k : K) (onDup : α → α) : ∀ (fuel : Nat) (t : T α) (res : T α × Bool),
+    put cmp key k none onDup fuel t = .ok res → Ordered cmp key t →
+    memL cmp key k (inorder t) = false → inorder res.1 = inorder t ∧ res.2 = false := by
+  intro fuel
+  induction fuel with
+  | zero => intro t res h; simp [put] at h
+  | succ fuel ih =>
+    intro t res h hs hm
+    cases t with
+    | nil => simp [put] at h; subst h; simp
+    | node l a c r =>
+      simp only [put] at h
+      obtain ⟨t1, h1, h2⟩ := bind_eq_ok h
+      obtain ⟨l1, c1, r1, rfl, il, ir, _, _⟩ := splitFour_node h1
+      obtain ⟨sl, sr, hla, har, hlr⟩ := sorted_mid (xs := inorder l) (ys := inorder r) (by simpa [Ordered] using hs)
+      simp only at h2
+      simp only [memL, inorder_node] at hm
+      cases hcmp : cmp k (key a) with
+      | eq =>
+        rw [lookupL_eq k _ _ a (left_below hc hla (Or.inr hcmp)) hcmp] at hm
+        simp at hm
+      | lt =>
+        rw [hcmp] at h2
+        rw [lookupL_lt k _ _ a hcmp] at hm
+        obtain ⟨p, h3, h4⟩ := bind_eq_ok h2
+        obtain ⟨t2, h5, h6⟩ := bind_eq_ok h4
+        cases h6
+        obtain ⟨i1, i2⟩ := ih l1 p h3 (by simpa [Ordered, il] using sl) (by simpa [memL, il] using hm)
+        simp [(putUp_same h5).1, i1, i2, il, ir]
+      | gt =>
+        rw [hcmp] at h2
+        rw [lookupL_gt k _ _ a (left_below hc hla (Or.inl hcmp)) hcmp] at hm
+        obtain ⟨p, h3, h4⟩ := bind_eq_ok h2
+        obtain ⟨t2, h5, h6⟩ := bind_eq_ok h4
+        cases h6
+        obtain ⟨i1, i2⟩ := ih r1 p h3 (by simpa [Ordered, ir] using sr) (by simpa [memL, ir] using hm)
+        simp [(putUp_same h5).1, i1, i2, il, ir]
 
 end T
 end Qlibc.Tree
